@@ -41,7 +41,9 @@ Push(fp, t, sOk, pOk) ==
     /\ npush < MaxPushes
     /\ LET new == <<UtcDay(t), fp>> \notin cache
            ok == pOk /\ (new => sOk)
-       IN /\ cache' = IF new /\ (CacheSetBeforeInsert \/ sOk) THEN cache \cup {<<UtcDay(t), fp>>} ELSE cache
+       IN \* CacheSetBeforeInsert = FALSE is the code since fix eb377cd: the key is set at parse time and forgotten again when
+          \* the request fails (either INSERT), so it stays only for a request that was acknowledged
+          /\ cache' = IF new /\ (CacheSetBeforeInsert \/ ok) THEN cache \cup {<<UtcDay(t), fp>>} ELSE cache
           /\ dbSeries' = IF new /\ sOk THEN dbSeries \cup {<<StoredDay(t), fp>>} ELSE dbSeries
           /\ dbSamples' = IF pOk THEN dbSamples \cup {<<fp, t>>} ELSE dbSamples
           /\ acked' = IF ok THEN acked \cup {<<fp, t>>} ELSE acked
